@@ -170,11 +170,11 @@ let mld_parse_op kv =
   let bs = getb kv "bytes" in
   if get kv "what" = "rec" then begin
     let c = mldrec_check_len bs in
-    Printf.sprintf "chk %s%s" (chk c)
-      (if is_ok c then Printf.sprintf " acc type=%s aux=%s nsrc=%s addr=%s payload=%s parse %s"
+    Printf.sprintf "chk %s%s parse %s" (chk c)
+      (if is_ok c then Printf.sprintf " acc type=%s aux=%s nsrc=%s addr=%s payload=%s"
          (oz (mldrec_record_type bs)) (oz (mldrec_aux_data_len bs)) (oz (mldrec_num_srcs_ bs))
-         (ohex (mldrec_mcast_addr bs)) (ob (mldrec_payload_ bs)) (show_o mldrec_show (mldrec_parse bs))
-       else "")
+         (ohex (mldrec_mcast_addr bs)) (ob (mldrec_payload_ bs))
+       else "") (show_o mldrec_show (mldrec_parse bs))
   end else begin
     let c = icmp6h_check_len bs in
     Printf.sprintf "chk %s%s parse %s | icmp %s" (chk c)
